@@ -512,3 +512,70 @@ func TestUntrustedPublisher(t *testing.T) {
 	}
 	_ = strings.Join
 }
+
+// TestUntrustedPublisherDuringStartup: an update published by an untrusted
+// peer while the receiving replica is still starting (already subscribed to
+// the cluster topic, its CRDT store not yet running: the replica's datastore
+// holds the first query of go-ds-crdt) must be ignored like any other.
+func TestUntrustedPublisherDuringStartup(t *testing.T) {
+	sec := R.Sec("crdt-untrusted-publisher-while-the-receiver-starts")
+	for _, gossip := range []bool{false, true} {
+		gossip := gossip
+		clus.Bubble(t, func(t *testing.T) {
+			ctx := context.Background()
+			mn, hosts := clus.NewMocknetUnconnected(ctx, 0, 2)
+			v, u := 0, 1
+			U, err := clus.NewCRDTPeer(ctx, hosts[u], clus.NewFaultStore(), gossip, func(c *crdt.Config) { c.TrustAll = true })
+			if err != nil {
+				t.Fatal(err)
+			}
+			<-U.Cons.Ready(ctx)
+			store := clus.NewFaultStore()
+			store.HoldQueries(true)
+			V, err := clus.NewCRDTPeer(ctx, hosts[v], store, gossip, func(c *crdt.Config) {
+				c.TrustAll = false
+				c.TrustedPeers = []peer.ID{clus.PID(7)} // somebody else
+			})
+			if err != nil {
+				t.Fatal(err)
+			}
+			defer func() {
+				store.HoldQueries(false)
+				U.Stop()
+				V.Stop()
+				hosts[0].Close()
+				hosts[1].Close()
+			}()
+			mn.ConnectPeers(hosts[u].ID(), hosts[v].ID())
+			time.Sleep(5 * time.Second)
+			synctest.Wait()
+			held := store.QueriesHeld()
+			pin := api.PinCid(clus.Cid("published-while-V-starts"))
+			pin.ReplicationFactorMin, pin.ReplicationFactorMax = -1, -1
+			U.Cons.LogPin(ctx, pin)
+			time.Sleep(3 * time.Second)
+			synctest.Wait()
+			store.HoldQueries(false)
+			ready := false
+			select {
+			case <-V.Cons.Ready(ctx):
+				ready = true
+			case <-time.After(2 * time.Minute):
+			}
+			for i := 0; i < 6; i++ {
+				time.Sleep(11 * time.Second)
+				synctest.Wait()
+			}
+			got := pinsOf(ctx, V)[pin.Cid.String()]
+			R.Eval(sec, fmt.Sprintf("gossip=%v|held-at-first-query=%v|ready-after-release=%v|applied=%v", gossip, held > 0, ready, got), true)
+			if held == 0 || !ready {
+				R.Broken("startup-window section: the receiving replica was not held at its first query (held=%d) or did not become ready (%v)", held, ready)
+				return
+			}
+			if got {
+				R.Violation("C07|crdt-pubsub|while-the-receiver-starts|V|update-from-untrusted-publisher-accepted", map[string]interface{}{
+					"gossip": gossip, "V_trusts": "another peer only", "published": "while V was subscribed to the topic and its CRDT store had not started (first datastore query held)", "V_has_the_pin": got})
+			}
+		})
+	}
+}
